@@ -8,10 +8,11 @@
      drop(Producer):    store has_producer := true (Release)
      store(v):          w := load write_cell (Relaxed);
                         data[w % 2].get()  ; raw write of size_of::<T>() bytes ;
-                        fetch_add write_cell 1 (Release)
+                        fetch_add write_cell 1 (AcqRel: the acquire half reads from the release sequence of the
+                        readers' validating CASes, so their copies happen-before the writer's next cell write)
      loan path:         __internal_get_ptr_to_write_cell: w := load write_cell (Relaxed); data[w % 2].get()
                         (the caller writes through the pointer)
-                        __internal_update_write_cell: fetch_add write_cell 1 (Release)
+                        __internal_update_write_cell: fetch_add write_cell 1 (AcqRel)
                         -- or the loan is discarded: no fetch_add, the spare cell keeps the garbage
      load():            w := load write_cell (Acquire);
                         loop { raw copy of size_of::<T>() bytes from cell (w - 1) % 2  (NO UnsafeCell::get:
@@ -46,7 +47,7 @@ Inductive pc :=
 | Idle
 | WCell (m : wmode) (v : value) (w : N)            (* next: UnsafeCell::get of data[w % 2] *)
 | WByte (m : wmode) (v : value) (w : N) (i : nat)  (* copy in progress, next: write byte i of cell w % 2 *)
-| WFadd (m : wmode) (v : value) (w : N)            (* next: fetch_add(write_cell, 1, Release) *)
+| WFadd (m : wmode) (v : value) (w : N)            (* next: fetch_add(write_cell, 1, AcqRel) *)
 | RByte (w0 w : N) (buf : value) (i : nat)         (* copy in progress, next: read byte i of cell (w-1) % 2 *)
 | RCas (w0 w : N) (buf : value).                   (* next: CAS(write_cell, w, w) *)
 
@@ -135,7 +136,7 @@ Definition fstep (t : nat) (g : gst) (l : lst) : option (gst * lst * list ev) :=
           w_done_ev m (S i) (vsize g))
   | WFadd m v w =>
     Some (publish g (img (vsize g) v), set_lst l (prog l) Idle,
-          [EAcc (site_fadd m) B_WC 0 KFetchAdd Release Release (wc g) ((wc g + 1) mod W64) true; ERet 0])
+          [EAcc (site_fadd m) B_WC 0 KFetchAdd AcqRel AcqRel (wc g) ((wc g + 1) mod W64) true; ERet 0])
   | RByte w0 w buf i =>
     Some (g, set_lst l (prog l) (r_next w0 w (buf ++ [nth i (cellv g (w - 1)) 0]) (S i) (vsize g)), [])
   | RCas w0 w buf =>
